@@ -287,6 +287,90 @@ def typed_objects_leg(c, wd):
         sys.modules.pop(mod.__name__, None)
 
 
+NAMING_HOST = '''
+class Shop:
+    def order(self, n):
+        total = n * 2
+        return total  # TP:line
+
+
+def go(n):
+    return Shop().order(n)
+'''
+
+
+def naming_leg(c, wd):
+    """The snapshot NAMES the tracepoint that fired: id, path, line, arguments and watches are those of the tracepoint as
+    it was configured (sent by the service or registered in code) - not a reconstruction from what the agent needed of
+    it. Each tracepoint of the list is configured on its own, through the real configuration service."""
+    import sys
+    from .. import rig as R
+    mod, path, marks = R.write_host(wd, NAMING_HOST)
+    base = path.rsplit('/', 1)[-1]
+    line = marks['line']
+    tps = [
+        ('plain', {'id': 'n-plain', 'path': base, 'line': line, 'args': {}, 'watches': []}),
+        ('condition', {'id': 'n-cond', 'path': base, 'line': line, 'args': {'condition': 'n > 0'}, 'watches': ['n']}),
+        ('rate', {'id': 'n-rate', 'path': base, 'line': line, 'args': {'fire_count': '3', 'fire_period': '0'},
+                  'watches': ['total', 'n + 1']}),
+        ('frames', {'id': 'n-frames', 'path': base, 'line': line, 'args': {'frame_type': 'all_frame',
+                                                                         'stack_type': 'stack'}, 'watches': []}),
+        ('log', {'id': 'n-log', 'path': base, 'line': line, 'args': {'log_msg': 'total={total}'}, 'watches': []}),
+        ('unknown-argument', {'id': 'n-own', 'path': base, 'line': line, 'args': {'ticket': 'OPS-17', 'owner': 'ben'},
+                              'watches': []}),
+        ('line-end', {'id': 'n-end', 'path': base, 'line': line, 'args': {'stage': 'line_end'}, 'watches': []}),
+        ('method', {'id': 'n-method', 'path': base, 'line': line - 1, 'args': {'method_name': 'order'}, 'watches': ['n']}),
+        ('method-conditional', {'id': 'n-mcond', 'path': base, 'line': line - 2,
+                                'args': {'method_name': 'order', 'condition': 'n == 4', 'stage': 'method_start'},
+                                'watches': []}),
+        ('window', {'id': 'n-window', 'path': base, 'line': line, 'args': {'window_start': '0', 'window_end': '9999999999999'},
+                    'watches': []}),
+    ]
+    try:
+        for label, tp in tps:
+            for how in ('service', 'registered'):
+                rg = R.Rig()
+                bad = None
+                try:
+                    if how == 'service':
+                        rg.install_via_service([tp])
+                        want_id = tp['id']
+                    else:
+                        want_id = rg.register(tp)
+                    res = rg.run(mod.go, 4, only_file=path)
+                    snaps = rg.snapshots()
+                    if res != ('ok', 8) or rg.escaped:
+                        bad = 'host changed: %r %r' % (res, rg.escaped)
+                    elif len(snaps) != 1:
+                        bad = '%d snapshots' % len(snaps)
+                    else:
+                        t = snaps[0].tracepoint
+                        got = {'id': t.id, 'path': t.path, 'line': t.line_no, 'args': dict(t.args), 'watches': list(t.watches)}
+                        want = {'id': want_id, 'path': tp['path'], 'line': tp['line'], 'args': dict(tp['args']),
+                                'watches': list(tp['watches'])}
+                        # arguments the tracepoint left out may be named with the documented value the agent used for
+                        # them; every argument it WAS given is named as given
+                        defaults = {'frame_type': 'single_frame', 'stack_type': 'stack', 'fire_count': '1', 'fire_period': '1000'}
+                        if all(got['args'].get(k) == v for k, v in want['args'].items()) and all(
+                                k in want['args'] or defaults.get(k) == v for k, v in got['args'].items()):
+                            got['args'] = want['args']
+                        diff = {k: (got[k], want[k]) for k in want if got[k] != want[k]}
+                        if diff:
+                            bad = 'names its tracepoint as %s' % ', '.join(
+                                '%s=%r (configured: %r)' % (k, g, w) for k, (g, w) in sorted(diff.items()))
+                finally:
+                    rg.close()
+                c.traces_validated += 1
+                c.note_case(key=('naming', label, how), nontrivial=True)
+                if bad:
+                    p_ = c.save_replay({'direction': 'C2S', 'kind': 'naming', 'tracepoint': tp, 'configured_by': how, 'what': bad})
+                    if c.violation('the snapshot of tracepoint %s (%s, configured by %s) %s' % (tp['id'], label, how, bad), p_) \
+                            and len(c.violations) >= 8:
+                        return
+    finally:
+        sys.modules.pop(mod.__name__, None)
+
+
 def run(c):
     quick = c.tier == 'quick'
     rng = random.Random(c.seed)
@@ -326,6 +410,7 @@ def run(c):
     values_leg(c, rng, wd, 300 if quick else 40000)
     scalar_watch_leg(c, wd)
     typed_objects_leg(c, wd)
+    naming_leg(c, wd)
 
 
 if __name__ == '__main__':
